@@ -33,7 +33,7 @@ const c19Rule = "case = (mainnet flag, rollup index, leaf index); the encoder/de
 	"formula and the value is read back from every carrier (imported bridge exit, PP/FEP commitment, Agglayer wire message and " +
 	"prover request through the real gRPC clients, optimistic commitment); non-trivial = minimal byte length of the encoded value " +
 	"is not 4, 8 or 9 (the lengths the decoder special-cases trivially) or the mainnet flag is set with a non-zero rollup index " +
-	"supplied; distinct = the triple"
+	"supplied (then also: a mainnet claim whose on-chain index carries those rollup bits must be carried as one and the same value by the PP/FEP commitments, the wire message and the prover request); distinct = the triple"
 
 func le32(x *big.Int) []byte {
 	be := make([]byte, 32)
@@ -96,6 +96,11 @@ func c19WireGet() (*c19Wire, error) {
 
 // c19Check verifies one triple. wire=false skips the two gRPC carriers (used by the native fuzz target).
 func c19Check(flag bool, rollup, leaf uint32, wire bool) error {
+	if flag && rollup != 0 {
+		if err := c19Stray(rollup, leaf, wire); err != nil {
+			return err
+		}
+	}
 	x := ref.GlobalIndex(flag, rollup, leaf)
 	wantRollup := rollup
 	if flag {
@@ -247,6 +252,87 @@ func c19Check(flag bool, rollup, leaf uint32, wire bool) error {
 		}
 	}
 	return nil
+}
+
+// c19Stray: a mainnet claim whose on-chain global index carries non-zero rollup-index bits (the bridge contract versions
+// bound here ignore those bits when the mainnet flag is set, so such a claim can exist). Whatever the node makes of those
+// bits, the certificate's signed commitments, the wire message and the prover request must carry one and the same value.
+func c19Stray(rollup, leaf uint32, wire bool) error {
+	y := new(big.Int).Or(ref.GlobalIndex(true, 0, leaf), new(big.Int).Lsh(new(big.Int).SetUint64(uint64(rollup)), 32))
+	claim := bridgesync.Claim{
+		BlockNum: 7, GlobalIndex: y, OriginNetwork: 3, OriginAddress: common.HexToAddress("0x11"),
+		DestinationAddress: common.HexToAddress("0x22"), DestinationNetwork: 5, Amount: big.NewInt(9),
+	}
+	bf0 := flows.NewBaseFlow(log.WithFields("module", "c19"), nil, nil, nil, nil, flows.NewBaseFlowConfigDefault())
+	ibe, err := bf0.ConvertClaimToImportedBridgeExit(claim)
+	if err != nil {
+		return fmt.Errorf("ConvertClaimToImportedBridgeExit(0x%x): %v", y, err)
+	}
+	if !ibe.GlobalIndex.MainnetFlag || ibe.GlobalIndex.LeafIndex != leaf {
+		return fmt.Errorf("certificate carries %+v for the mainnet claim 0x%x", *ibe.GlobalIndex, y)
+	}
+	le := ibe.GlobalIndexToLittleEndianBytes()
+	carried := new(big.Int).SetBytes(reverse(le))
+	if carried.Bit(64) != 1 || uint32(carried.Uint64()) != leaf || carried.BitLen() > 65 {
+		return fmt.Errorf("commitment bytes %x of the mainnet claim 0x%x do not encode (mainnet, leaf %d)", le, y, leaf)
+	}
+	var dummy agglayertypes.MerkleProof
+	ibe.ClaimData = &agglayertypes.ClaimFromMainnnet{ProofLeafMER: &dummy, ProofGERToL1Root: &dummy, L1Leaf: &agglayertypes.L1InfoTreeLeaf{Inner: &agglayertypes.L1InfoTreeLeafInner{}}}
+	cert := &agglayertypes.Certificate{NetworkID: 5, Height: 4, NewLocalExitRoot: common.HexToHash("0x77"),
+		ImportedBridgeExits: []*agglayertypes.ImportedBridgeExit{ibe},
+		AggchainData:        &agglayertypes.AggchainDataSignature{Signature: make([]byte, 65)}}
+	exitHash := refExitHash(ibe.BridgeExit)
+	cle := le32(carried)
+	if cert.PPHashToSign() != crypto.Keccak256Hash(cert.NewLocalExitRoot.Bytes(), crypto.Keccak256(crypto.Keccak256(cle))) {
+		return fmt.Errorf("PP commitment of the mainnet claim 0x%x does not carry 0x%x, the value of the certificate's commitment bytes", y, carried)
+	}
+	if cert.FEPHashToSign() != crypto.Keccak256Hash(cert.NewLocalExitRoot.Bytes(), crypto.Keccak256(append(append([]byte{}, cle...), exitHash.Bytes()...)),
+		[]byte{4, 0, 0, 0, 0, 0, 0, 0}, crypto.Keccak256(nil)) {
+		return fmt.Errorf("FEP commitment of the mainnet claim 0x%x does not carry 0x%x", y, carried)
+	}
+	if !wire {
+		return nil
+	}
+	w, err := c19WireGet()
+	if err != nil {
+		return fmt.Errorf("INCONCLUSIVE: grpc fake: %v", err)
+	}
+	cl, err := c19Clients(w)
+	if err != nil {
+		return fmt.Errorf("INCONCLUSIVE: grpc clients: %v", err)
+	}
+	if _, err := cl.agg.SendCertificate(context.Background(), cert); err != nil {
+		return fmt.Errorf("SendCertificate: %v", err)
+	}
+	w.mu.Lock()
+	sub := w.submit
+	w.mu.Unlock()
+	for _, e := range sub.GetCertificate().GetImportedBridgeExits() {
+		if gi := e.GetGlobalIndex().GetValue(); len(gi) != 32 || new(big.Int).SetBytes(gi).Cmp(carried) != 0 {
+			return fmt.Errorf("wire message carries global index %x for the mainnet claim 0x%x, the signed commitments carry 0x%x", gi, y, carried)
+		}
+	}
+	req := &aggsendertypes.AggchainProofRequest{ImportedBridgeExitsWithBlockNumber: []*agglayertypes.ImportedBridgeExitWithBlockNumber{{BlockNumber: 7, ImportedBridgeExit: ibe}}}
+	if _, err := cl.prov.GenerateAggchainProof(context.Background(), req); err != nil {
+		return fmt.Errorf("GenerateAggchainProof: %v", err)
+	}
+	w.mu.Lock()
+	pr := w.prove
+	w.mu.Unlock()
+	for _, e := range pr.GetImportedBridgeExits() {
+		if gi := e.GetGlobalIndex().GetValue(); len(gi) != 32 || new(big.Int).SetBytes(gi).Cmp(carried) != 0 {
+			return fmt.Errorf("prover request carries global index %x for the mainnet claim 0x%x, the signed commitments carry 0x%x", gi, y, carried)
+		}
+	}
+	return nil
+}
+
+func reverse(b []byte) []byte {
+	out := make([]byte, len(b))
+	for i := range b {
+		out[len(b)-1-i] = b[i]
+	}
+	return out
 }
 
 type c19Cl struct {
